@@ -255,7 +255,7 @@ package jet
 //@   nocrash
 //@   requires t != nil && t.lex != nil && 0 <= t.lex.lastPos && t.lex.lastPos <= len(t.lex.input)
 //@   loop 0 invariant true
-//@   ensures result1 == nil ==> result0 != nil && fresh(result0) && result0.NodeType == NodeNumber
+//@   ensures result1 == nil ==> result0 != nil && fresh(result0) && result0.NodeType == NodeNumber && result0.NodeBase.Line >= 1
 //@   ensures [every-accepted-numeric-literal-is-a-float] {C04} result1 == nil && typ == itemNumber ==> result0.IsFloat || result0.IsComplex
 
 //@ func (*NumberNode).simplifyComplex
@@ -428,3 +428,31 @@ package jet
 //@   loop 1 invariant PInv(t) && t.Root != nil && fresh(t.Root)
 //@   loop 1 invariant [imports-non-nil] forall(i, 0, len(t.imports), t.imports[i] != nil)
 //@   ensures PInv(t) && forall(i, 0, len(t.imports), t.imports[i] != nil)
+
+// Every use of a name gets a node of its own carrying the line it was read on (C12: errors name the failing line).
+//@ func (*Template).newIdentifier
+//@   props C02 C12
+//@   requires t != nil
+//@   nopanic
+//@   ensures [identifier-nodes-are-not-shared] {C12} result != nil && fresh(result) && result.NodeBase.Line == line && result.NodeBase.TemplatePath == t.Name && result.NodeBase.NodeType == NodeIdentifier && result.Ident == ident && result.NodeBase.Pos == pos
+// Literal and command nodes record the line they were read on (C12: errors raised on them name a 1-based line).
+//@ func (*Template).newString
+//@   props C02 C12
+//@   requires t != nil && t.lex != nil && 0 <= t.lex.lastPos && t.lex.lastPos <= len(t.lex.input)
+//@   nopanic
+//@   ensures [literal-nodes-record-their-line] {C12} result != nil && fresh(result) && result.NodeBase.Line >= 1 && result.NodeBase.TemplatePath == t.Name && result.NodeBase.NodeType == NodeString && result.Text == text
+//@ func (*Template).newBool
+//@   props C02 C12
+//@   requires t != nil && t.lex != nil && 0 <= t.lex.lastPos && t.lex.lastPos <= len(t.lex.input)
+//@   nopanic
+//@   ensures [literal-nodes-record-their-line] {C12} result != nil && fresh(result) && result.NodeBase.Line >= 1 && result.NodeBase.TemplatePath == t.Name && result.NodeBase.NodeType == NodeBool
+//@ func (*Template).newNil
+//@   props C02 C12
+//@   requires t != nil && t.lex != nil && 0 <= t.lex.lastPos && t.lex.lastPos <= len(t.lex.input)
+//@   nopanic
+//@   ensures [literal-nodes-record-their-line] {C12} result != nil && fresh(result) && result.NodeBase.Line >= 1 && result.NodeBase.TemplatePath == t.Name && result.NodeBase.NodeType == NodeNil
+//@ func (*Template).newCommand
+//@   props C02 C12
+//@   requires t != nil && t.lex != nil && 0 <= t.lex.lastPos && t.lex.lastPos <= len(t.lex.input)
+//@   nopanic
+//@   ensures [command-nodes-record-their-line] {C12} result != nil && fresh(result) && result.NodeBase.Line >= 1 && result.NodeBase.TemplatePath == t.Name && result.NodeBase.NodeType == NodeCommand && result.CallExprNode.BaseExpr == nil && result.CallExprNode.CallArgs.Exprs == nil && !result.CallExprNode.CallArgs.HasPipeSlot
